@@ -24,9 +24,9 @@ enum Op {
     DropUnpolled,
 }
 
-pub fn run(wseed: u64) {
+pub fn run(wseed: u64, rt: &tokio::runtime::Runtime) {
     let mut rng = Rng::new(wseed);
-    let max = 1 + rng.below(2) as usize;
+    let max = if rng.chance(3, 5) { 1 } else { 2 + rng.below(2) as usize };
     // 0 = reject when full (zero wait), 1 = wait without limit, 2 = the `reject_when_full` preset
     let mode = rng.below(3);
     let threads = 2 + rng.below(2) as usize;
@@ -48,7 +48,6 @@ pub fn run(wseed: u64) {
     }
     println!("MSIM scenario=bulkhead wseed={} max={} mode={} plans={:?}", wseed, max, mode, plans);
 
-    let rt = paused_runtime();
     let handle = rt.handle().clone();
     let _g = rt.enter();
     let sh = Shared::new(max, nreq + max + 1);
@@ -86,12 +85,14 @@ pub fn run(wseed: u64) {
                         match rest {
                             None => violation("C07.no_hang [os_threads]", format!("request {} never resolved", id)),
                             Some(Ok(v)) => {
+                                note(4, id);
                                 if v != id {
                                     violation("C07.result [os_threads]", format!("request {} got the answer of {}", id, v));
                                 }
                             }
                             Some(Err(e)) => {
                                 let own = e.is_bulkhead();
+                                note(if own { 5 } else { 6 }, id);
                                 let entered = sh.entered[id].load(SeqCst);
                                 if own && entered > 0 {
                                     violation("C07.rejected_never_inner [os_threads]", format!("request {} was rejected and reached the wrapped service", id));
@@ -113,6 +114,7 @@ pub fn run(wseed: u64) {
                             }
                             std::thread::yield_now();
                         }
+                        note(7, id);
                         drop(f);
                     }
                     Op::DropUnpolled => {
